@@ -65,10 +65,10 @@ def run_impl(case, path):
         for name, jobs in h.stream_data(fm):
             js = []
             for job in jobs:
-                js.append([(S.un(e.event_id), S.un(e.job_id), S.un(e.job_name), S.un(e.parent_event_id) if e.parent_event_id else None,
+                js.append([(S.un(e.event_id), S.un(e.job_id), S.un_name(e.job_name), S.un(e.parent_event_id) if e.parent_event_id else None,
                             S.un(e.event_type), e.start_timestamp, e.end_timestamp, S.un(e.application_name),
                             sorted(S.un(c) for c in e.child_event_ids)) for e in job])
-            out.append((S.un(name), js))
+            out.append((S.un_name(name), js))
     except Exception as e:  # noqa
         return "ERR:" + type(e).__name__, None
     finally:
